@@ -151,6 +151,15 @@ def run(ctx, model_ok=True):
     if os.path.exists(cp):
         lines += [l.strip() for l in open(cp) if l.strip() and not l.startswith('#')]
     lines += sweep_lines(tab, quick)
+    # long runs of one byte (no instruction of the 6502: 00 under the default setting, FF, 03), alone, in front of code and behind it
+    k = 0
+    for n in [255, 256, 257, 300, 512, 1000, 4096, 65535]:
+        for v in ([0, 0xff, 3] if n < 1000 or not quick else [0]):
+            for tail in [b'', b'\xea', b'\xa9\x01\x60']:
+                b = bytes([v]) * n + tail
+                if len(b) <= 65535:
+                    lines.append(f"dasmrt u{k} 6502 11 {min(2048, 65536 - len(b))} m8 1 0 {b.hex()}")
+                    k += 1
     for i in range(400 if quick else 20000):
         proc = rng.choice(PROCS)
         mx, variant = settings(rng, proc, any_mx=True)
